@@ -154,6 +154,15 @@ pub fn valid_case(cx: &mut Ctx, n: u64, case: &Value) {
                             open.push(open[0]);
                             geo::LineString::new(open)
                         };
+                        // every vertex written twice in a row (repeated points add no point to the ring: same verdict)
+                        {
+                            let dbl = |l: &geo::LineString<f64>| geo::LineString::new(l.0.iter().flat_map(|c| [*c, *c]).collect());
+                            let q = geo::Polygon::new(dbl(p.exterior()), p.interiors().iter().map(dbl).collect());
+                            let qv = guard(|| (q.is_valid(), q.validation_errors().is_empty()));
+                            if qv == Ok((want, want)) { cx.ok("polygon_doubled_vertices_is_valid"); } else {
+                                cx.bad("C14", "polygon_doubled_vertices_is_valid", case, json!({"what": "every vertex of every ring repeated once", "got": format!("{qv:?}"), "want": want}));
+                            }
+                        }
                         for (k, rev) in [(1usize, false), (2, true), (0, true)] {
                             let closed_input = p.exterior().0.first() == p.exterior().0.last() && p.interiors().iter().all(|h| h.0.first() == h.0.last());
                             if !closed_input { break; }
